@@ -181,6 +181,14 @@ func c17check(s int32, printed bool) (string, bool) {
 	if t.Unix()-baseUnix() != int64(v) || t.Nanosecond() != 0 || fit.VerifEncodeTime(t) != v || fit.IsBaseTime(t) != (v == 0) {
 		return "time-bijection", false
 	}
+	// the same instant shown in another location is the same time: conversion and IsBaseTime must not
+	// depend on the zone (decoded local timestamps carry a fixed zone)
+	for _, z := range c17Zones {
+		tz := t.In(z)
+		if fit.VerifEncodeTime(tz) != v || fit.IsBaseTime(tz) != (v == 0) {
+			return "time-in-zone-" + z.String(), false
+		}
+	}
 	return "", true
 }
 
@@ -196,6 +204,8 @@ func nearEdge(x int64) bool {
 	}
 	return false
 }
+
+var c17Zones = []*time.Location{time.FixedZone("A", 3600), time.FixedZone("B", -18000), time.FixedZone("C", 19800+1)}
 
 func absInt(x int64) int64 {
 	if x < 0 {
